@@ -22,6 +22,7 @@ CONSTANTS
   MaxHavoc = 0
   KeepRec = FALSE
   NestedTrigs <- MCNested
+  EvMayHold = FALSE
 INVARIANT NoBad
 INVARIANT Structural
 CHECK_DEADLOCK FALSE
